@@ -43,7 +43,11 @@ def make_capture(base):
             self.synced, self.stored, self.fetched, self.has_calls = [], [], [], []
 
         def last_sigs(self):
-            return dict(self.synced[-1]) if self.synced else {}
+            """path -> signature committed since the log was reset (how the commit is batched is not our business)"""
+            out = {}
+            for d in self.synced:
+                out.update(d)
+            return out
 
         def __repr__(self):
             return f"CaptureStore({self.inner!r})"
